@@ -378,3 +378,11 @@ PLAN["C10"]["thorough"]["tests"][0]["shards"] = 7
 PLAN["C10"]["thorough"]["tests"].append({"run": "TestC10Crash", "shards": 4, "checks": 400, "timeout": 840, "shrink": "60s"})
 PLAN["C10"]["rule"] += ("; TestC10Crash: the strace-driven crash / failed-call enumeration of C08 over open, write, set-revision-counter, revert and close (plain opens of existing files are fault points as well): "
                         "after a process death or a failed call the reopened directory's counter lies between the value before and the value after the operation")
+
+PLAN["C17"]["quick"]["tests"][0]["shards"] = 12
+PLAN["C17"]["quick"]["tests"].append({"run": "TestC17Faults", "shards": 4, "checks": 25, "timeout": 100, "shrink": "20s"})
+PLAN["C17"]["thorough"]["tests"][0]["shards"] = 12
+PLAN["C17"]["thorough"]["tests"].append({"run": "TestC17Faults", "shards": 4, "checks": 300, "timeout": 840, "shrink": "60s"})
+PLAN["C17"]["rule"] += ("; TestC17Faults: set-rebuilding (on/off) in a victim process with one file-system call failing (strace, as in C08) followed by a normal close: "
+                        "a request that reported failure leaves the persisted rebuilding flag - which decides the replica's state and its accepted actions after a restart - as it was")
+PLAN["C08"]["rule"] += "; the rebuilding flag volume.meta persists is part of the compared state; plain opens of existing files are fault points (EIO)"
